@@ -1,4 +1,5 @@
 import OccaModel.Expr
+import OccaModel.ExprShape
 import OccaModel.Proto
 open Occa Occa.Gen Occa.Expr Occa.Proto
 
@@ -69,8 +70,20 @@ def roundTrip (cs : List Char) : String :=
       | .ok e2 => if dump e2 == t1 then "same" else dump e2
     "ok T=" ++ t1 ++ " P=" ++ pct text ++ " R=" ++ r
 
+/-- model-only probe: does the input have the C shape, does it parse, are the printed tokens the input -/
+def shapeProbe (cs : List Char) : String :=
+  match lex cs with
+  | .error _ => "lexerr"
+  | .ok ts0 =>
+    let ts := typeTokens ts0
+    let sh := if CShape ts then "shape=1" else "shape=0"
+    match parse ts with
+    | .error _ => sh ++ " parse=err"
+    | .ok e => sh ++ " parse=ok printeq=" ++ (if printToks e == ts then "1" else "0")
+
 def step (_ : Unit) (toks : List String) : Unit × String :=
   match toks with
+  | "K" :: ts => ((), shapeProbe (" ".intercalate ts).toList)
   | "E" :: ts => ((), roundTrip (" ".intercalate ts).toList)
   | "G" :: ts => ((), roundTrip (" ".intercalate ts).toList)
   | ["X", a] => match unpctArg a with
